@@ -267,8 +267,8 @@ def decode(buf):
                 k = rd.key()
                 if k == 0:
                     break
-                if k < 0:
-                    raise CodecError(f"table {name!r}: key {k} where a record is due")
+                # (a negative key right away = a zero-length logical record: no pieces,
+                # only the closing keys)
                 r_no += 1
                 pieces = []
                 while k > 0:
